@@ -12,7 +12,8 @@ RelChecks(e) ==
     [] e.rel = "close" -> [unchanged |-> Len(e.m2) = n /\ \A i, j \in 1..n :
                              LET a == F(e.m1, e.perm[i], e.perm[j])  b == F(e.m2, i, j) IN
                              \/ FClose(b, FMul(FInt(e.k), a), FParse("1e-9"), FParse("1e-12")) \/ (FIsNaN(a) /\ FIsNaN(b))
-                             \/ UnstablePair(e.rows, e.o, e.perm[i], e.perm[j])]
+                             \* (an unstable pair is still reported as undefined or by a finite value on both sides, never as +Inf)
+                             \/ ((FIsNaN(a) \/ FIsFinite(a)) /\ (FIsNaN(b) \/ FIsFinite(b)) /\ UnstablePair(e.rows, e.o, e.perm[i], e.perm[j]))]
     [] OTHER -> [knownRelation |-> FALSE]
 \* a caller-supplied model whose k-th evaluation fails: the call returns, with that error, whenever the failing
 \* evaluation is one the computation needs (every pair is needed: k <= number of pairs / of row requests)
